@@ -285,7 +285,7 @@ fn check_host_roundtrip(m: &WireHostAddr) {
     let before: [u8; 18] = kani::any();
     let mut buf = before;
     let sz = m.required_size();
-    assert!(sz == 4 || sz == 8 || sz == 12 || sz == 16, "C03.leaf: host address size in {4,8,12,16}");
+    assert!(sz == 4 || sz == 8 || sz == 12 || sz == 16, "C03.leaf: host address size in (4,8,12,16)");
     let n = unsafe { m.encode_unchecked(&mut buf) };
     assert!(n == sz, "C03.leaf: host address encode returns required_size");
     let k: usize = kani::any();
